@@ -319,8 +319,8 @@ def c09(tier):
 
 def c10(tier):
     if tier == 'quick':
-        return [filt('atoms', 'C10', 2, 1, 'both', 'all'), filt('pairs', 'C10', 1, 2, 'both', 'all')]
-    return [filt('atoms', 'C10', 3, 1, 'both', 'all', 7200), filt('pairs', 'C10', 2, 2, 'both', 'all', 7200)]
+        return [filt('atoms', 'C10', 2, 1, 'both', 'all'), filt('pairs', 'C10', 1, 2, 'both', 'all'), traceB_eval(4000, 60000, 'C10', EVAL_ATTR)]
+    return [filt('atoms', 'C10', 3, 1, 'both', 'all', 7200), filt('pairs', 'C10', 2, 2, 'both', 'all', 7200), traceB_eval(4000, 60000, 'C10', EVAL_ATTR)]
 
 
 def conc_model(label, ng, prog, timeout=600):
